@@ -38,7 +38,9 @@ func init() {
 // cost a few hundred bytes per token, a token can be a single character)
 const c08K = 4096
 const c08C = 4 << 20
-const c08TimeLimit = 60 * time.Second
+// watchdog of one decode: generous in the thorough tier, whose documents are megabytes long and whose
+// shards share the machine (a 2 MB string of escapes took 23 s of CPU under load in a sweep)
+var c08TimeLimit = 60 * time.Second
 
 type chunkReader struct {
 	data  []byte
@@ -338,6 +340,9 @@ func c08Measure(fn func() error) (alloc uint64, dur time.Duration, outcome strin
 }
 
 func runC08(r *Run) {
+	if r.Tier == "thorough" {
+		c08TimeLimit = 240 * time.Second
+	}
 	fams := c08Families()
 	// warm-up: the ANTLR static tables, the type caches
 	for _, d := range [][]byte{[]byte("c0\n[1 \"a\" @u8x[ff] 1.5 {1=2}]"), {0x81, 0, 0x9a, 1, 0x9b}} {
